@@ -952,7 +952,22 @@ def gen_recipe(r, cfg=None, profile="mixed"):
                       shp3[:2] + [units], hq)
             emit(dict(op="RESHAPE", shape=[1, shp3[0], shp3[1], units], **{"in": y_}), [1, shp3[0], shp3[1], units], hq)
         elif fam == "cpu":
-            kind = r.choice(["custom", "deq_floor_q", "gather", "big_stride", "unsupported_act", "dyn_fc", "argmax"])
+            kind = r.choice(["custom", "deq_floor_q", "gather", "big_stride", "unsupported_act", "dyn_fc", "argmax", "lstm_cpu"])
+            if kind == "lstm_cpu":
+                # an LSTM flavour the NPU lowering does not take (peephole / CIFG / layer normalisation): stays on the CPU with its 24
+                # operands, five intermediates and two variable state tensors
+                if dtype != "int8" or C > 64 or H * W > 12:
+                    continue
+                tm = r.random() < 0.5
+                shp3 = [H * W, 1, C] if tm else [1, H * W, C]
+                a_ = emit(dict(op="RESHAPE", shape=shp3, **{"in": [xi]}), shp3, x["q"])
+                units = r.choice([1, 4, 8, 16])
+                hq = (f32(1 / 128), 0)
+                Lc = dict(op="LSTM", units=units, q=list(hq), time_major=tm, wscale=f32(0.004), cell_pow=11, **{"in": a_})
+                Lc[r.choice(["peephole", "cifg", "layer_norm"])] = True
+                y_ = emit(Lc, shp3[:2] + [units], hq)
+                emit(dict(op="RESHAPE", shape=[1, shp3[0], shp3[1], units], **{"in": y_}), [1, shp3[0], shp3[1], units], hq)
+                continue
             if kind == "dyn_fc" and dtype in ("int8", "uint8") and elems <= 4096:
                 # FULLY_CONNECTED whose weights are computed by an operator the compiler can place on the NPU
                 oc_ = r.choice([2, 4, 8])
